@@ -45,6 +45,14 @@ def check_views(world, side, handle, rng, light=False):  # pylint: disable=too-m
     request = keys + absent + keys[:2]
     rng.shuffle(request)
 
+    # Asking for a key that does not exist makes the library close its session and query again - which also heals a
+    # handle whose session went stale. Half of the time the first questions are therefore about existing objects only.
+    if keys and rng.random() < 0.5:
+        for key in keys if len(keys) <= 6 else rng.sample(keys, 6):
+            content = handle.get_object_content(key)
+            if content != model[key]:
+                _fail(world, 'wrong-bytes', f'get_object_content key={key[:12]} got len {len(content)} expected {len(model[key])} (first query after the step)')
+
     got = handle.has_objects(request)
     expected = [k in model for k in request]
     if list(got) != expected:
